@@ -241,7 +241,7 @@ def run(tier, t0):
         acc.merge(part)
     acc.sample({'cell': hex(rm.encode((9, 1, 2))), 'configs': [c for c, _ in CONFIGS[:4]] + ['... 25 in total']})
     rule = (f'every cell of resolutions 0..{R}, G1[basic] digit-pattern cells and the cells around both poles, 24 antimeridian points and the 62 frame points at resolutions up to 29, each x 25 option '
-            'combinations (options=None, closed_ring in {omitted, True, False} x segments in {omitted, None, "auto", 1, 2, 3, 7, 16}); a transition is one cell_to_boundary call; non-trivial = cells')
+            'combinations (options=None, closed_ring in {omitted, True, False} x segments in {omitted, None, "auto" (as the literal and as an equal string built at run time), 1, 2, 3, 7, 16}); a transition is one cell_to_boundary call; non-trivial = cells')
     return common.finish(PID, LEVEL, tier, acc, t0, rule, [
         'simple + counter-clockwise is decided in the gnomonic plane at the ring centroid (great-circle arcs are straight there): O(n) bearing test, exact O(n^2) crossing test + signed area before reporting',
         'the pole exemption is decided by the independent oracle (pole inside the ring or within 1e-9 rad of it)',
